@@ -490,9 +490,26 @@ def cyl_to_cart(r, phi, z):
         return (0.0, r, z)
     if phi == "-x":
         return (-r, 0.0, z)
+    if phi == "-x-0":                      # azimuth -pi (arctan2(-0.0, -r)) instead of +pi
+        return (-r, -0.0, z)
     if phi == "-y":
         return (0.0, -r, z)
     return (r * math.cos(phi), r * math.sin(phi), z)
+
+
+def az(deg):
+    """azimuth in degrees -> exact axis token where the direction is a coordinate axis (so that the observer's
+    computed azimuth is EXACTLY that angle; -180 gives y = -0.0, i.e. arctan2 = -pi), else radians"""
+    d = deg % 360.0
+    if d == 0.0:
+        return 0.0
+    if d == 90.0:
+        return "y"
+    if d == 180.0:
+        return "-x-0" if deg < 0 else "-x"
+    if d == 270.0:
+        return "-y"
+    return math.radians(deg)
 
 
 def near_vertex(verts, sc):
@@ -590,9 +607,13 @@ def geometries(ctx):
                 if full:
                     phis = [("phi=0", 0.0), ("phi=y", "y"), ("phi=-x", "-x"), ("phi=gen", 0.7)]
                 else:
-                    phis = [("phiface:exact", math.radians(p1)), ("phiface:exact", math.radians(p2)),
+                    phis = [("phiface:exact", az(p1)), ("phiface:exact", az(p2)),
                             ("phi-inside", math.radians((p1 + p2) / 2)), ("phi-outside", math.radians((p1 + p2) / 2 + 180)),
-                            ("phiface:ulp", ulp_step(math.radians(p1), 2)), ("phiface:near", math.radians(p2) - 1e-12)]
+                            ("phiface:ulp", ulp_step(math.radians(p1), 2)), ("phiface:near", math.radians(p2) - 1e-12),
+                            # azimuth exactly opposite a side face, reached as +180 and as -180 degrees
+                            ("phiopp:exact", az(p1 + 180)), ("phiopp:exact", az(p1 - 180)),
+                            ("phiopp:exact", az(p2 + 180)), ("phiopp:exact", az(p2 - 180)),
+                            ("phiopp:near", math.radians(p1 + 180) + 1e-12)]
                 spts = cyl_points(raxis, zaxis, phis, sc, section=not full)
                 kind = ("full" if full else "section") + ("-r1=0" if r1 == 0 else "-ring")
                 extra = {-270.0: "section-phi1<-180", -200.0: "section-span359.5", 0.96875: "section-thin-shell"}.get(p1 if p1 < -100 else r1)
